@@ -8,7 +8,7 @@ errors: tokens in print order have strictly increasing, disjoint offsets, hold s
 is their concatenation (recovery never invents, duplicates or reorders text)."""
 import random
 
-from . import core, syntax, progs, lexgen, c01, semerr
+from . import core, syntax, progs, lexgen, c01, semerr, yaccobl
 
 # token runs that are never a (prefix of a) valid statement; the second group is not bracket-balanced: a stray ')' or ']'
 # is itself the malformed statement (a stray '}' would legitimately close the enclosing block, so it is not used)
@@ -156,6 +156,14 @@ def run(tier):
             check.violation({"class": "printed-text-is-not-the-tree's-tokens", "family": fam},
                             {"src": t["src"], "ver": t["ver"], "printed": r.get("printed"), "tokens": r.get("tokcat")})
     check.cov["trees_returned_with_errors"] = ntrees
+    # what recovery does to the TREE, at design level: LRValues.tla runs goyacc's loop with its value stack on concrete tables of the
+    # grammars' recovery shape over every token string up to the bound (NoInvention, PrefixKept, Reported, CleanIsWhole,
+    # Terminates), and shows that they fail when an empty / error production leaves $$ unassigned; that obligation is then
+    # checked on the action code of both real parsers (generated .go and the .y source)
+    yaccobl.model_check(check, tier)
+    for fam in ("7", "5"):
+        for sig, rep in yaccobl.check_family(check, fam):
+            check.violation(sig, rep)
     check.cov["traces_validated_against_impl"] = check.cov["evaluations"]
     check.assumptions += ["malformed-statement menu: token runs that are never a valid statement and are bracket-balanced",
                           "statement identity = full reflection fingerprint (offsets before the insertion point are unchanged)"]
